@@ -201,51 +201,47 @@ func (b *Bounds) facts(at ssa.Instruction) []cons {
 		if !ok {
 			continue
 		}
-		cond, neg := CondPolarity(iff.Cond)
-		bo, ok := cond.(*ssa.BinOp)
-		if !ok {
-			continue
-		}
-		r, ok := relOfOp(bo.Op)
-		if !ok {
-			continue
-		}
-		if !isIntegral(bo.X.Type()) {
-			continue
-		}
-		if neg {
-			r = r.neg()
-		}
 		for succ := 0; succ < 2; succ++ {
-			rel := r
-			if succ == 1 {
-				rel = r.neg()
-			}
 			e := Edge{blk, succ}
 			if !edgeDominates(b.Fn, e, at) {
 				continue
 			}
-			xn, xk, _ := b.canon(bo.X)
-			yn, yk, _ := b.canon(bo.Y)
-			switch rel {
-			case LT: // x < y  => x - y <= -1
-				add(xn, xk, yn, yk, -1)
-			case LE:
-				add(xn, xk, yn, yk, 0)
-			case GT:
-				add(yn, yk, xn, xk, -1)
-			case GE:
-				add(yn, yk, xn, xk, 0)
-			case EQ:
-				add(xn, xk, yn, yk, 0)
-				add(yn, yk, xn, xk, 0)
-			case NE:
-				// x != c where x is a length (>= 0) and c == 0: x >= 1 (and symmetrically)
-				if yn == zeroNode && yk == 0 && xn.len {
-					add(yn, yk, xn, xk, -1)
+			// what is certain on this edge: the comparison itself, or — for a condition bound to a named boolean
+			// (`inRange := lo <= n && n <= len(data); if !inRange { return }`) — every comparison all ways of the flag share
+			for _, a := range impliedAtoms(iff.Cond, succ == 0, 0) {
+				bo, ok := a.v.(*ssa.BinOp)
+				if !ok || !isIntegral(bo.X.Type()) {
+					continue
 				}
-				if xn == zeroNode && xk == 0 && yn.len {
+				rel, ok := relOfOp(bo.Op)
+				if !ok {
+					continue
+				}
+				if !a.pol {
+					rel = rel.neg()
+				}
+				xn, xk, _ := b.canon(bo.X)
+				yn, yk, _ := b.canon(bo.Y)
+				switch rel {
+				case LT: // x < y  => x - y <= -1
 					add(xn, xk, yn, yk, -1)
+				case LE:
+					add(xn, xk, yn, yk, 0)
+				case GT:
+					add(yn, yk, xn, xk, -1)
+				case GE:
+					add(yn, yk, xn, xk, 0)
+				case EQ:
+					add(xn, xk, yn, yk, 0)
+					add(yn, yk, xn, xk, 0)
+				case NE:
+					// x != c where x is a length (>= 0) and c == 0: x >= 1 (and symmetrically)
+					if yn == zeroNode && yk == 0 && xn.len {
+						add(yn, yk, xn, xk, -1)
+					}
+					if xn == zeroNode && xk == 0 && yn.len {
+						add(xn, xk, yn, yk, -1)
+					}
 				}
 			}
 		}
